@@ -80,11 +80,19 @@ HomeOptions(cs, dflt) ==
      Linked("topPet", <<Linked("owner", <<CardUse("", cs, K, SV, dflt)>>)>>),                                        \* 7 deeper
      LinkedA("me", "me8", <<>>, <<CardUse("", cs, NullV, NullV, FALSE)>>),                                           \* 8 null literals
      ScalarA("Lister", "", << <<"x", StrV(<<97, 98>>)>> >>),                                                          \* 9 literal reaching a variable INSIDE an object argument
-     ScalarA("Lister", "l2", << <<"x", SV>> >>) >>                                                                    \* 10 variable reaching it
+     ScalarA("Lister", "l2", << <<"x", SV>> >>),                                                                      \* 10 variable reaching it
+     \* 11-12 (added after seeded/C10-inline-fragment-not-transformed-with-parent-context): a parameterised client field
+     \* defined on an INTERFACE whose parameter is used INSIDE an asX refinement of its own body; used with a variable of
+     \* another name while the entrypoint also has a variable with the parameter's name (so a missing substitution stays
+     \* valid GraphQL and silently fetches with the wrong variable), and with a literal
+     LinkedA("node", "n11", << <<"id", ID>> >>,
+             <<ScalarA("Refined", "", << <<"c", K>> >>), Linked("asUser", <<LinkedA("pets", "pc", << <<"first", Var("c")>> >>, <<Scalar("id")>>)>>)>>),   \* 11
+     LinkedA("node", "n12", << <<"id", ID>> >>, <<ScalarA("Refined", "", << <<"c", IntV("3")>> >>)>>) >>                \* 12
 
 HomeVars(hs) == (IF UsesVarIn(hs, ID) THEN <<VarDef("id", NonNull(Named("ID")))>> ELSE <<>>)
                 \o (IF UsesVarIn(hs, K) THEN <<VarDef("k", Named("Int"))>> ELSE <<>>)
                 \o (IF UsesVarIn(hs, SV) THEN <<VarDef("s", Named("String"))>> ELSE <<>>)
+                \o (IF UsesVarIn(hs, Var("c")) THEN <<VarDef("c", Named("Int"))>> ELSE <<>>)
 
 RECURSIVE SeqOfSet(_)
 SeqOfSet(Q) == IF Q = {} THEN <<>> ELSE LET m == CHOOSE x \in Q : \A y \in Q : x <= y IN <<m>> \o SeqOfSet(Q \ {m})
@@ -100,6 +108,8 @@ Programs ==
                                           <<ScalarA("weight", "", << <<"unit", U>> >>), Scalar("nickname")>>)>> ELSE <<>>)
                \o (IF UsesName(cs, "Mini") THEN <<Field("User", "Mini", <<VarDef("m", Named("Int"))>>,
                                                        <<LinkedA("pets", "", << <<"first", Var("m")>> >>, <<Scalar("id")>>)>>)>> ELSE <<>>)
+               \o (IF UsesName(hs, "Refined") THEN <<Field("Node", "Refined", <<VarDef("c", Named("Int"))>>,
+                                                         <<Linked("asUser", <<LinkedA("pets", "", << <<"first", Var("c")>> >>, <<Scalar("id")>>)>>)>>)>> ELSE <<>>)
                \o (IF UsesName(hs, "Lister") THEN <<Field("Query", "Lister", <<VarDef("x", Named("String"))>>,
                                                         <<LinkedA("pets", "", << <<"filter", ObjV(<< <<"name", Var("x")>> >>)>> >>, <<Scalar("kind")>>)>>)>> ELSE <<>>)
                \o (IF UsesName(cs, "favPet") THEN <<Pointer("User", "favPet", "Pet", <<Linked("bestPet", <<Scalar("__link")>>)>>)>> ELSE <<>>)
